@@ -85,7 +85,7 @@ var stdImports = map[string]string{
 	"bufio": "bufio", "net": "net", "ioutil": "io/ioutil", "flag": "flag", "sha256": "crypto/sha256",
 	"iter": "iter", "exec": "os/exec", "heap": "container/heap", "big": "math/big", "path": "path",
 	"bits": "math/bits", "elliptic": "crypto/elliptic", "tls": "crypto/tls", "x509": "crypto/x509",
-	"hex": "encoding/hex", "base64": "encoding/base64", "runtime": "runtime", "debug": "runtime/debug",
+	"hex": "encoding/hex", "base64": "encoding/base64", "runtime": "runtime", "debug": "runtime/debug", "tar": "archive/tar",
 }
 
 // importsOf lists the import paths a piece of source needs: every known
@@ -451,6 +451,8 @@ type Ty struct {
 	Impls    []Impl // interfaces: declared types known to implement it
 	Test     bool   // declared in the _test.go file
 	open     bool   // its declaration is still being generated
+	SelfEmb  bool   // a struct that embeds a pointer to itself
+	EmbPtr   bool   // a struct that embeds a pointer to a struct
 	Opaque   bool   // known by its source text only (Name holds a type literal or a qualified name)
 	unit     int
 }
